@@ -5302,10 +5302,13 @@ def unfold_part_maximal(score: ScoreLike, update_ids=True, ignore_leaps=True):
         # Copy needs to be deep, otherwise the recursion limit will be exceeded
         old_recursion_depth = sys.getrecursionlimit()
         sys.setrecursionlimit(10000)
-        # Deep copy of score
-        new_score = deepcopy(score)
-        # Reset recursion limit to previous value to avoid side effects
-        sys.setrecursionlimit(old_recursion_depth)
+        try:
+            # Deep copy of score
+            new_score = deepcopy(score)
+        finally:
+            # Reset recursion limit to previous value to avoid side effects
+            # (also when the copy fails)
+            sys.setrecursionlimit(old_recursion_depth)
         new_partlist = list()
         for score in new_score.parts:
             unfolded_part = unfold_part_maximal(
@@ -5346,10 +5349,13 @@ def unfold_part_minimal(score: ScoreLike):
         # Copy needs to be deep, otherwise the recursion limit will be exceeded
         old_recursion_depth = sys.getrecursionlimit()
         sys.setrecursionlimit(10000)
-        # Deep copy of score
-        unfolded_score = deepcopy(score)
-        # Reset recursion limit to previous value to avoid side effects
-        sys.setrecursionlimit(old_recursion_depth)
+        try:
+            # Deep copy of score
+            unfolded_score = deepcopy(score)
+        finally:
+            # Reset recursion limit to previous value to avoid side effects
+            # (also when the copy fails)
+            sys.setrecursionlimit(old_recursion_depth)
         new_partlist = list()
         for part in unfolded_score.parts:
             unfolded_part = unfold_part_minimal(part)
